@@ -27,6 +27,7 @@ type Limits struct {
 	MaxEnvFires    int    `json:"max_env_fires"`
 	MapOrder       string `json:"map_order"`
 	SolverTimeoutMs int   `json:"solver_timeout_ms"`
+	PrimaryTimeoutMs int  `json:"primary_timeout_ms"`
 }
 
 type Unit struct {
@@ -111,6 +112,7 @@ func applyDefaults(u *Unit, tier string) {
 	def(&u.MaxThreads, 12)
 	def(&u.MaxEnvFires, 2)
 	def(&u.SolverTimeoutMs, 20000)
+	def(&u.PrimaryTimeoutMs, 2500)
 	if u.MapOrder == "" {
 		u.MapOrder = "insertion"
 	}
@@ -213,6 +215,8 @@ type Stats struct {
 	MaxDecisions int
 	SolverErrors []string
 	SampleVecs   [][]ReplayVal
+	PrimaryUnknown int
+	Fallback     map[string]int
 }
 
 type workQueue struct {
@@ -298,7 +302,10 @@ func (P *Prog) explore(entry *ssa.Function, workers int) *Stats {
 		wg.Add(1)
 		go func() {
 			defer wg.Done()
-			S, err := NewSolver(P.cfg.SolverTimeoutMs, false)
+			S, err := NewSolver(P.cfg.PrimaryTimeoutMs, false)
+			if err == nil {
+				S.FallbackMs = P.cfg.SolverTimeoutMs
+			}
 			if err != nil {
 				mu.Lock()
 				st.Inconclusive = append(st.Inconclusive, "cannot start solver: "+err.Error())
@@ -377,6 +384,13 @@ func (P *Prog) explore(entry *ssa.Function, workers int) *Stats {
 			mu.Lock()
 			st.Queries += S.Queries
 			st.SolverTime += S.Time
+			st.PrimaryUnknown += S.PrimaryUnknown
+			for k, v := range S.FallbackUsed {
+				if st.Fallback == nil {
+					st.Fallback = map[string]int{}
+				}
+				st.Fallback[k] += v
+			}
 			if len(S.Errors) > 0 && len(st.SolverErrors) < 10 {
 				st.SolverErrors = append(st.SolverErrors, S.Errors[0])
 			}
